@@ -60,3 +60,13 @@ Print Assumptions woff2_triplet_accepts.
 Theorem woff2_triplet_refuses : forall x y on, 65536 <= Z.abs x \/ 65536 <= Z.abs y -> ModelTriplet.enc_point x y on = Err OverflowError.
 Proof. exact ProofsTriplet.enc_point_too_far. Qed.
 Print Assumptions woff2_triplet_refuses.
+
+(* ---- the composite statistics maxp.recalc derives (ModelMaxp.v: Glyph.getCompositeMaxpValues with its depth accumulator):
+   total points and contours of the flattened glyph, and the depth it was entered with plus the levels of composites below it *)
+From FV Require C04.ModelMaxp C04.ProofsMaxp.
+Theorem composite_maxp_values : forall cs depth,
+  ModelMaxp.comp_values (ModelMaxp.GComposite cs) depth =
+  (ModelMaxp.total_points (ModelMaxp.GComposite cs), ModelMaxp.total_contours (ModelMaxp.GComposite cs),
+   depth + ModelMaxp.nest (ModelMaxp.GComposite cs)).
+Proof. exact ProofsMaxp.composite_maxp_values. Qed.
+Print Assumptions composite_maxp_values.
